@@ -667,9 +667,10 @@ class ExprMixin:
                 for k in range(container.length):
                     acc = z3.Or(acc, to_bool_term(self.equal(item, container.at(k), path)))
                 return SBool(acc)
-            j = path.fresh("j", IntS)
-            return SBool(z3.Exists([j], z3.And(j >= 0, j < container.length,
-                                                to_val(container.at(SInt(j))) == to_val(item))))
+            from .ground import exists_witness
+            it_ = to_val(item)
+            return SBool(exists_witness(path, container.length,
+                                        lambda j: to_val(container.at(SInt(j))) == it_, "in"))
         h = self.hooks.get("contains")
         if h is not None:
             return h(self, path, container, item)
